@@ -280,7 +280,7 @@ def explore(cfg):
     cfg["exclude"] = [tuple(x) for x in cfg.get("exclude", ())]
     keep = set(cfg.get("keep", ()))
     findings = []
-    events = set()
+    events = {}
     totals = {"states": 0, "transitions": 0, "bfs_runs": 0}
     final = None
     while True:
@@ -300,7 +300,8 @@ def explore(cfg):
         totals["bfs_runs"] += 1
         totals["states"] += r.states
         totals["transitions"] += r.transitions
-        events |= system.mon.events
+        for k_, n_ in system.mon.events.items():
+            events[k_] = events.get(k_, 0) + n_
         if r.violation is None:
             final = r
             break
@@ -322,7 +323,7 @@ def explore(cfg):
             cfg["exclude"].append((addr, strb))
             continue
         break
-    out = {"name": cfg["name"], "layout": cfg["layout"], "findings": findings, "sample_trace": sample_trace(cfg), "events": sorted(events),
+    out = {"name": cfg["name"], "layout": cfg["layout"], "findings": findings, "sample_trace": sample_trace(cfg), "events": events,
            "keep": sorted(keep), "excluded": cfg["exclude"], "wall": round(time.time() - t0, 2),
            "cpu": round(time.process_time() - c0, 2)}
     out.update(totals)
@@ -407,9 +408,11 @@ def quick_variants():
         # L3 array of two MemWords at 0x0, 0x4; 0x8 unmapped
         V("array/q1", "array", [0x0, 0x4], [(A, F), (B, M)], 1),
         V("array/q2", "array", [0x4, 0x8], [(A, F), (B, L)], 1),
+        V("array/q3", "array", [0x0, 0x4], [(A, F), (B, L)], 2),
         # L4 MemWord 0x0, hole 0x4, RegFile@0x8 {MemWord 0x8, read-only Word 0xC driven by hardware}
         V("nested/q1", "nested", [0x8, 0xC], [(A, F), (B, L)], 1),
         V("nested/q2", "nested", [0x0, 0x8, 0x4], [(A, F), (B, M)], 1, HW_Y_FIXED),
+        V("nested/q3", "nested", [0x8, 0xC], [(A, F), (B, L)], 2),
     ]
 
 
@@ -435,9 +438,13 @@ def thorough_variants():
         V("fields/t3", "fields", [0x8, 0x4], [(A, F), (B, F)], 2, HW_CLEAR_ONLY, max_states=big),
         V("fields/t4", "fields", [0x0, 0x4], [(A, F), (B, F)], 2, HW_IN_ONLY, max_states=big),
         V("array/t1", "array", [0x0, 0x4, 0x8], [(A, F), (B, M), (B, L)], 1, max_states=big),
-        V("array/t2", "array", [0x0, 0x4], [(A, F), (B, L)], 2, max_states=big),
+        V("array/t2", "array", [0x0, 0x4], [(A, F), (B, F), (A, M), (B, L)], 1, max_states=big),
         V("nested/t1", "nested", [0x0, 0x8, 0xC, 0x4], [(A, F), (B, M)], 1, max_states=big),
-        V("nested/t2", "nested", [0x8, 0xC], [(A, F), (B, L)], 2, max_states=big),
+        V("nested/t2", "nested", [0x0, 0x8, 0xC], [(A, F), (B, L), (B, M)], 1, max_states=big),
+        V("nested/t3", "nested", [0x0, 0x8], [(A, F), (B, M)], 2, HW_Y_FIXED, max_states=big),
+        V("memword/t5", "memword", [0x0], ALL8, 2, max_states=big),
+        V("fields/t5", "fields", [0x0, 0x8], [(A, F), (B, F)], 2, HW_FIXED, max_states=big),
+        V("fields/t6", "fields", [0x0, 0x8, 0x4], [(A, F), (B, L), (A, M), (B, Z)], 1, max_states=big),
     ]
 
 
@@ -481,6 +488,8 @@ def main(run: Run):
         run.cmax("max_states_one_variant", r["final_states"])
         run.count("distinct_observations", r["observations"])
         all_events |= set(r["events"])
+        for k_, n_ in r["events"].items():
+            run.count("event/" + k_, n_)
         complete = r["exhausted"]
         unresolved = [f for f in r["findings"] if not (f["rule"] == "regs" and f["detail"].startswith("write/"))]
         if complete:
@@ -491,24 +500,24 @@ def main(run: Run):
             run.note(f"variant {r['name']}: state cap hit at {r['final_states']} states (not exhausted)")
         info = {"variant": r["name"], "addresses": [hex(a) for a in _cfg_of(vs, r["name"])["addrs"]],
                 "write_payloads": [f"{d:08X}/{s:04b}" for d, s in _cfg_of(vs, r["name"])["wpay"]],
-                "max_outstanding": _cfg_of(vs, r["name"])["maxo"], "states": r["final_states"],
+                "max_outstanding": _cfg_of(vs, r["name"])["maxo"],
+                "hardware_inputs": _cfg_of(vs, r["name"])["hw"] or {h[0]: list(h[2]) for h in LAYOUTS[r["layout"]]["hw"]},
+                "states": r["final_states"],
                 "transitions": r["final_transitions"], "depth": r["depth"], "exhausted": r["exhausted"],
                 "excluded_failing_inputs": [f"0x{a:x}/{s:04b}" for a, s in r["excluded"]], "cpu_s": r["cpu"]}
         run.sample(info, force=True)
         if r["name"].endswith("/q1"):
             run.sample({"variant": r["name"], "sample_run": r["sample_trace"]}, force=True)
         missing = REQUIRED_EVENTS - set(r["events"])
-        if complete and missing:
+        if complete and missing and not r["findings"]:
             run.tool_error(f"vacuous: variant {r['name']} never exercised {sorted(missing)}")
-        if complete and r["observations"] < 8:
+        if complete and r["observations"] < 8 and not r["findings"]:
             run.tool_error(f"vacuous: variant {r['name']} produced only {r['observations']} distinct observations")
         for f in r["findings"]:
             key = finding_key(r["layout"], f)
             run.violation(key, f"{r['name']}: [{f['rule']}] {f['text'][:500]} (after {f.get('depth')} clocks)",
                           {"cfg": f.get("cfg"), "events": f["trace"], "rule": f["rule"], "detail": f["detail"]})
     run.max_samples = 64
-    for ev in sorted(all_events):
-        run.count("event/" + ev)
     if not only and layouts_seen != ({v["layout"] for v in vs}):
         run.tool_error(f"layouts explored {sorted(layouts_seen)} != planned")
     run.assume("data abstraction: write data ranges over the two words A1B2C3D4 and 5E6F7081 (all eight bytes distinct), "
